@@ -30,6 +30,29 @@ from ..util import data
 SMALL_PRIMES = [3, 5, 7, 11, 13, 17, 19, 23, 29, 31, 37, 41, 43, 47, 53, 59, 61, 67, 71, 73, 79, 83, 89, 97, 101, 103, 107, 109, 113]
 PRIMES = [3, 5, 7, 11, 13, 17, 97, 257, 65537, 2 ** 31 - 1, 2 ** 61 - 1, 2 ** 89 - 1, 2 ** 127 - 1, 2 ** 255 - 19, 2 ** 521 - 1,
           2 ** 256 - 2 ** 224 + 2 ** 192 + 2 ** 96 - 1, 2 ** 64 - 59, 2 ** 64 + 13, 2 ** 128 + 51]
+def _special_moduli():
+    from ..refs import ec
+    out = []
+    for c in list(ec.WS.values()) + list(ec.ED.values()) + list(ec.MONT.values()):
+        out += [c["p"], c["n"]]
+    return sorted(set(out))
+
+
+SPECIAL = _special_moduli()       # curve primes and group orders: the C code has dedicated reductions for some of them
+
+
+def lookalike(rng):
+    """A modulus that shares its most significant bytes with a special prime without being it."""
+    m = rng.choice(SPECIAL)
+    r = rng.random()
+    if r < 0.4:
+        return m
+    nb = (m.bit_length() + 7) // 8
+    keep = rng.choice([8, 9, 16, nb - 8, nb - 1])
+    low = 8 * max(1, nb - keep)
+    return ((m >> low) << low) | rng.getrandbits(low) | 1
+
+
 PRECOND = {"no-inverse", "negative-exponent", "zero-modulus", "non-residue", "negative-sqrt"}
 
 
@@ -70,15 +93,17 @@ class Machine(object):
         return 60000 if tier == "quick" else 2500000
 
     def isolate(self, case):
-        return case["kind"] == "aes"
+        # a crash or abort of one implementation is a divergence, not a harness failure: the engine runs each chunk in a
+        # forked child and, if that dies, repeats it with one child per case (engine._chunk)
+        return False
 
     def classify_crash(self, case, pid, status, text):
         from .. import engine
         c = engine.Ctx()
         sig = os.WTERMSIG(status) if os.WIFSIGNALED(status) else None
-        v = {"key": "replica/aes/crash:%s" % (("signal%d" % sig) if sig else "exit%d" % os.WEXITSTATUS(status)),
-             "msg": "the child running the AES/GHASH replicas died (%s) while the other replica configurations are expected to return a result"
-                    % (("signal %d" % sig) if sig else "exit status %d" % os.WEXITSTATUS(status)),
+        v = {"key": "replica/%s/crash:%s" % (case["kind"], ("signal%d" % sig) if sig else "exit%d" % os.WEXITSTATUS(status)),
+             "msg": "the child running the in-process %s replicas died (%s) while the other implementations are expected to return a result"
+                    % ("AES/GHASH" if case["kind"] == "aes" else "integer back-end", ("signal %d" % sig) if sig else "exit status %d" % os.WEXITSTATUS(status)),
              "observed": "crash", "expected": "identical results from all replicas"}
         return c.result(violation=v)
 
@@ -111,13 +136,14 @@ class Machine(object):
             if name in ("add", "sub", "mul", "iadd", "isub", "imul", "and", "or", "gcd", "lcm", "cmp", "set", "hash_eq"):
                 op.append(operand())
             elif name in ("floordiv", "mod", "imod", "inverse", "inplace_inverse"):
-                op.append(operand(nonneg=True) if rng.random() < 0.9 else ["i", 0])
+                op.append(operand(nonneg=True) if rng.random() < 0.8 else (["i", lookalike(rng)] if rng.random() < 0.5 else ["i", 0]))
             elif name in ("pow", "inplace_pow"):
                 e = ["i", rng.choice([0, 1, 2, 3, 65537, rng.getrandbits(rng.choice([8, 64, 160, 256, 1024, 2100]))])] if rng.random() < 0.8 else operand(nonneg=True)
                 if rng.random() < 0.04:
                     e = ["i", -rng.choice([1, 2, 65537])]
                 m = ["i", rng.choice([1, 2, 3, 4, 16, 1000, 1001, 2 ** 64, 2 ** 64 + 1, 2 ** 255 - 19, 2 ** 127 - 1, 2 ** 1024 + 643, (2 ** 1024 + 643) * 2,
-                                      rng.getrandbits(rng.choice([64, 65, 128, 512, 1024, 2048])) | 1, rng.getrandbits(256) << 1])]
+                                      rng.getrandbits(rng.choice([64, 65, 128, 512, 1024, 2048])) | 1, rng.getrandbits(256) << 1,
+                                      lookalike(rng), lookalike(rng), lookalike(rng)])]
                 if rng.random() < 0.03:
                     m = ["i", 0]
                 if rng.random() < 0.3:
@@ -126,7 +152,7 @@ class Machine(object):
             elif name == "pow_nomod":
                 op.append(["i", rng.choice([0, 1, 2, 3, 5, 17, 40])])
             elif name == "sqrt_mod":
-                op.append(["i", rng.choice(PRIMES)])
+                op.append(["i", rng.choice(PRIMES + [m for m in SPECIAL])])
             elif name in ("rshift", "irshift", "lshift", "ilshift"):
                 op.append(["i", rng.choice([0, 1, 7, 8, 31, 32, 63, 64, 65, 100, 1000, 3000, 70000 if name.endswith("rshift") else 4000])])
             elif name == "get_bit":
@@ -142,7 +168,8 @@ class Machine(object):
             elif name == "from_bytes":
                 op += [[rng.randrange(1 << 30), rng.choice([0, 1, 8, 9, 32, 33, 256])], rng.choice(["big", "little"]), rng.random() < 0.3]
             elif name == "mult_modulo_bytes":
-                op += [operand(nonneg=True), operand(nonneg=True), ["i", rng.getrandbits(rng.choice([64, 65, 256, 1024, 2048])) | 1]]
+                op += [operand(nonneg=True), operand(nonneg=True),
+                       ["i", lookalike(rng) if rng.random() < 0.3 else rng.getrandbits(rng.choice([64, 65, 256, 1024, 2048])) | 1]]
             ops.append(op)
         return {"kind": "int", "regs": regs, "ops": ops}
 
@@ -609,8 +636,21 @@ class Machine(object):
         return tuple(out)
 
     # -- replica processes
+    def prefork(self):
+        """Called by the engine in the worker before it forks a chunk child: the replica servers belong to the worker
+        and are shared (through inherited pipes) with the children, which run one at a time."""
+        if getattr(self, "_prefork_pid", None) != os.getpid():
+            self.servers = {}
+            self._prefork_pid = os.getpid()
+        for n in ("default", "custom", "native"):
+            self._server(n)
+        if getattr(self, "_backends_checked", None) != os.getpid():
+            got = {n: self._ask(n, ["backend", 0]) for n in ("default", "custom", "native")}
+            self._backends_checked = os.getpid()
+            self._backend_names = {n: (g or {}).get("ok") for n, g in got.items()}
+
     def _server(self, name):
-        key = (os.getpid(), name)
+        key = name
         s = self.servers.get(key)
         if s is not None and s.poll() is None:
             return s
@@ -647,15 +687,14 @@ class Machine(object):
             line = ""
         if not line:
             rc = s.poll()
-            self.servers.pop((os.getpid(), name), None)
+            self.servers.pop(name, None)
             return {"crash": rc}
         return json.loads(line)
 
     def run_proc(self, case, ctx):
         names = ["default", "custom", "native"]
-        if not getattr(self, "_backends_checked", None) == os.getpid():
+        if not hasattr(self, "_backend_names"):
             got = {n: self._ask(n, ["backend", 0]) for n in names}
-            self._backends_checked = os.getpid()
             self._backend_names = {n: (g or {}).get("ok") for n, g in got.items()}
         for n in names:
             b = self._backend_names.get(n)
